@@ -64,6 +64,17 @@ pub fn check_bytes(bytes: &[u8]) -> Result<bool, String> {
         }
         Ok(_) => {}
     }
+    // a source standing where a writer just stopped (at the end), not at 0: same verdict
+    {
+        let mut at_end = Cursor::new(bytes);
+        at_end.set_position(bytes.len() as u64);
+        match catch_unwind(AssertUnwindSafe(|| Reader::new(at_end).map(|_| ()))) {
+            Err(p) => return Err(format!("Reader::new over a source positioned at its end panicked: {}", panic_message(&p))),
+            Ok(Ok(())) if want.is_none() => return Err("Reader::new over a source positioned at its end accepted a byte string that does not end with a complete valid trailer".into()),
+            Ok(Err(e)) if want.is_some() => return Err(format!("Reader::new over a source positioned at its end rejected ({e}) a byte string ending with a valid trailer")),
+            Ok(_) => {}
+        }
+    }
     let got = catch_unwind(AssertUnwindSafe(|| Reader::new(Cursor::new(bytes))));
     match got {
         Err(p) => Err(format!("Reader::new panicked: {}", panic_message(&p))),
